@@ -59,6 +59,37 @@ def valid_frame(E, kind, tag=''):
     return E.as_bytes(v), dict(uid=u, pdu=pdu, tid=t, pid=p)
 
 
+def twin_inputs(kind, tags=('',)):
+    """concrete valid frames for the executable twin (random inputs would hardly ever satisfy the checksum assumptions)"""
+    def make(g):
+        r = g.r
+        out = {}
+        for tag in tags:
+            body = [r.randrange(1, 248)] + [r.randrange(1, 128)] + [r.randrange(256) for _ in range(r.choice([0, 1, 2, 4, 9, 20]))]
+            if kind == 'socket':
+                out[tag + 'uid'], out[tag + 'pdu'] = body[0], {'items': body[1:]}
+            elif kind == 'rtu':
+                out[tag + 'unit+pdu'] = {'items': body}
+            elif kind == 'ascii':
+                lrc = (-sum(body)) % 256
+                out[tag + 'hextext'] = {'items': list(''.join('%02X' % b for b in body + [lrc]).encode())}
+            else:
+                body = [b if b not in (0x7B, 0x7D) else 0x11 for b in body]
+                while True:
+                    crc = 0xFFFF
+                    for b in body:
+                        crc ^= b
+                        for _ in range(8):
+                            crc = (crc >> 1) ^ 0xA001 if crc & 1 else crc >> 1
+                    full = body + [crc % 256, crc // 256]
+                    if 0x7B not in full and 0x7D not in full:
+                        break
+                    body[1] = r.randrange(1, 0x7B)
+                out[tag + 'unit+pdu+crc'] = {'items': full}
+        return out
+    return make
+
+
 def receiver(E, kind, rec, frames):
     """fresh receiver; the RTU length oracle answers for the frame at the head of the stream"""
     def size(fcode, buf):
@@ -69,6 +100,15 @@ def receiver(E, kind, rec, frames):
             raise E.Raised('IndexError')
         return L.length(frames[k])
     return F.fresh_framer(E, kind, rec, outcomes=('message',), size_of=size)
+
+
+def at_boundary(E, f, kind, rec):
+    """every attribute of the receiver except the buffer is what a freshly constructed receiver has: the state after a delivered
+    frame carries nothing that could change a later decision (induction hypothesis of chunk independence)"""
+    ref = F.fresh_framer(E, kind, F.Rec())
+    if kind == 'rtu':
+        E.method(ref, 'advanceFrame')        # the RTU framer's rest state is an empty header dict
+    return E.same_state(f, ref, skip=('_buffer', 'decoder', 'client'))
 
 
 def check_delivery(E, rec, k, info, label, **fk):
@@ -95,6 +135,7 @@ def step(kind):
             check_delivery(E, rec, 0, info, 'step')
             if len(rec.delivered) == 1:
                 E.prove('step:buffer-holds-exactly-the-remainder', L.eq(E.get(f, '_buffer'), r), **fk)
+                E.prove('step:receiver-otherwise-as-fresh', at_boundary(E, f, kind, rec), **fk)
     return lemma
 
 
@@ -131,6 +172,7 @@ def partial(kind, cuts):
             check_delivery(E, rec, 0, info, 'resume', **fk)
             if len(rec.delivered) == 1:
                 E.prove('resume:buffer-holds-exactly-the-remainder', L.eq(E.get(f, '_buffer'), r), **fk)
+                E.prove('resume:receiver-otherwise-as-fresh', at_boundary(E, f, kind, rec), **fk)
     return lemma
 
 
@@ -156,10 +198,10 @@ def get_units():
     us = []
     for kind in ('socket', 'ascii', 'binary', 'rtu'):
         us.append(Unit('%s/two_frames.%s' % (PROP, kind), two_frames(kind), [PROP], contracts=CS, unroll={(F.QUAL[kind] + '.processIncomingPacket', 0): 3},
-                       functions=[F.QUAL[kind] + '.processIncomingPacket']))
+                       functions=[F.QUAL[kind] + '.processIncomingPacket'], twin=twin_inputs(kind, ('a_', 'b_'))))
         unroll = {(F.QUAL[kind] + '.processIncomingPacket', 0): 1}
         fns = [F.QUAL[kind] + '.' + m for m in ('processIncomingPacket', 'checkFrame', 'isFrameReady', 'advanceFrame', 'getFrame')]
-        us.append(Unit('%s/step.%s' % (PROP, kind), step(kind), [PROP], contracts=CS, unroll=unroll, functions=fns))
+        us.append(Unit('%s/step.%s' % (PROP, kind), step(kind), [PROP], contracts=CS, unroll=unroll, functions=fns, twin=twin_inputs(kind)))
         for cuts in ((1, 2) if kind == 'ascii' else (1,)):      # the other framers lose every partial read (known findings): one cut is enough to pin that
-            us.append(Unit('%s/partial.%s.%dcut' % (PROP, kind, cuts), partial(kind, cuts), [PROP], contracts=CS, unroll=unroll, functions=fns))
+            us.append(Unit('%s/partial.%s.%dcut' % (PROP, kind, cuts), partial(kind, cuts), [PROP], contracts=CS, unroll=unroll, functions=fns, twin=twin_inputs(kind)))
     return us
